@@ -90,6 +90,22 @@ def run(rep):
     events = []
     for evs in pmap(drive, args):
         events += evs
+    # objects no test vector parses to, built through the constructors by the generators of the wire checks: DNS keys of every kind
+    # and size (RSA exponents of 1..300 octets, EC points with leading zero octets, ...), SSH keys and KEXINITs
+    from . import c08, c07
+    extra = 0
+    for gen in (lambda: c08.generated(rep, False), lambda: c07.make_keys(rep.rng, False)):
+        try:
+            objs = gen()
+        except Exception:  # pylint: disable=broad-except
+            objs = []
+        for o in objs:
+            if isinstance(getattr(o, 'flags', None), list):
+                import attr
+                o = attr.evolve(o, flags=set(o.flags))          # the parser gives a set: the same collection type on both sides
+            events.append(roundtrip_event(type(o), o, 'generated'))
+            extra += 1
+    rep.extra['generated_objects'] = extra
     for e in events:
         rep.case(digest([e['cls'], e['p']]), nontrivial=e['compose'] == 'ok')
     rep.extra['classes'] = len({e['cls'] for e in events})
